@@ -56,3 +56,10 @@ void h_reverse(void) {
   else { VASSERT(r == &N[n - 1], "B: the last node becomes the first"); for (unsigned i = 0; i < 4; i++) if (i < n) VASSERT(N[i].next == (i ? &N[i - 1] : 0), "B: every link is reversed, no node lost or duplicated (lists <= 4)"); }
   VCANARY("reverse can return");
 }
+/* init: from ANY memory content the stack starts empty */
+void h_init(void) {
+  static mpmc_stack_t X; memset(&X, (int)verif_u64(), sizeof(X));
+  mpmc_stack_init(&X);
+  VASSERT(X.head == 0, "H: C20 stack init: empty, whatever the memory held");
+  VCANARY("stack init can return");
+}
